@@ -52,7 +52,11 @@ func runCmdTimeout(argv []string, d time.Duration) (string, error) {
 	var out bytes.Buffer
 	cmd.Stdout = &out
 	cmd.Stderr = &out
+	t0 := time.Now()
 	err := cmd.Run()
+	if os.Getenv("RVC_TIMING") != "" {
+		fmt.Fprintf(os.Stderr, "timing: %s %.1fs\n", strings.Join(argv, " "), time.Since(t0).Seconds())
+	}
 	return out.String(), err
 }
 
@@ -176,12 +180,157 @@ func solveVC(vc *VC, cfg solveCfg) {
 			}
 			return true
 		}
-		if !runInc(base+".inc.smt2", vc.incrementalScript(cfg.incTimeoutMs), main, "z3-new(incremental)") {
-			return
+		// the covers are decided side by side with the obligations (sharded too: sat checks are slow)
+		covDone := make(chan bool, 1)
+		var covPending []*Oblig
+		go func() {
+			ok := true
+			const covShard = 6
+			var cwg sync.WaitGroup
+			var cmu sync.Mutex
+			for lo := 0; lo < len(covers); lo += covShard {
+				hi := lo + covShard
+				if hi > len(covers) {
+					hi = len(covers)
+				}
+				sh := covers[lo:hi]
+				cwg.Add(1)
+				go func(k int, sh []*Oblig) {
+					defer cwg.Done()
+					in := map[*Oblig]bool{}
+					for _, ob := range sh {
+						in[ob] = true
+					}
+					hdr := fmt.Sprintf("(set-option :timeout %d)\n", cfg.incTimeoutMs) + vc.header()
+					script := dropQuantified(hdr + vc.incrementalBodyFor(func(o *Oblig) bool { return in[o] }))
+					file := fmt.Sprintf("%s.cov%d.smt2", base, k)
+					os.WriteFile(file, []byte(script), 0o644)
+					t0 := time.Now()
+					out, _ := runCmdTimeout([]string{"z3-new", file}, time.Duration(cfg.incTimeoutMs*len(sh)+20000)*time.Millisecond)
+					if !cfg.keep {
+						os.Remove(file)
+					}
+					per := time.Since(t0).Seconds() / float64(len(sh))
+					ans := answers(out)
+					cmu.Lock()
+					defer cmu.Unlock()
+					if len(ans) != len(sh) {
+						for _, ob := range sh {
+							ob.Status = "unknown"
+							ob.Output = "cover script failed: " + firstError(out)
+						}
+						covPending = append(covPending, sh...)
+						return
+					}
+					for i, ob := range sh {
+						ob.Solver = "z3-new(incremental, ground facts)"
+						ob.Seconds = per
+						if ans[i] == "sat" {
+							ob.Status = "proved"
+						} else {
+							ob.Status = "unknown"
+							ob.Output = ans[i]
+							covPending = append(covPending, ob)
+						}
+					}
+				}(lo/covShard, sh)
+			}
+			cwg.Wait()
+			covDone <- ok
+		}()
+		// a long function is cut into shards that are solved side by side: every shard carries all
+		// declarations and assumptions (and assumes the obligations of the others exactly as the full
+		// script does) but checks only its own obligations
+		const shardSize = 24
+		if len(main) <= shardSize+shardSize/2 {
+			if !runInc(base+".inc.smt2", vc.incrementalScript(cfg.incTimeoutMs), main, "z3-new(incremental)") {
+				return
+			}
+		} else {
+			nsh := (len(main) + shardSize - 1) / shardSize
+			if nsh > 16 {
+				nsh = 16
+			}
+			shards := make([][]*Oblig, nsh)
+			for i, ob := range main {
+				k := i * nsh / len(main)
+				shards[k] = append(shards[k], ob)
+			}
+			okAll := true
+			var mu sync.Mutex
+			var wg sync.WaitGroup
+			for k, sh := range shards {
+				wg.Add(1)
+				go func(k int, sh []*Oblig) {
+					defer wg.Done()
+					in := map[*Oblig]bool{}
+					for _, ob := range sh {
+						in[ob] = true
+					}
+					hdr := fmt.Sprintf("(set-option :timeout %d)\n", cfg.incTimeoutMs) + vc.header()
+					script := vc.withAxioms(hdr, vc.incrementalBodyFor(func(o *Oblig) bool { return in[o] }))
+					var local []*Oblig
+					ok := func() bool {
+						// runInc appends to `pending`: serialise that part
+						file := fmt.Sprintf("%s.inc%d.smt2", base, k)
+						os.WriteFile(file, []byte(script), 0o644)
+						t0 := time.Now()
+						out, _ := runCmdTimeout([]string{"z3-new", file}, time.Duration(cfg.incTimeoutMs*len(sh)+20000)*time.Millisecond)
+						if !cfg.keep {
+							os.Remove(file)
+						}
+						el := time.Since(t0).Seconds()
+						ans := answers(out)
+						errs := 0
+						for _, a := range ans {
+							if strings.HasPrefix(a, "error") {
+								errs++
+							}
+						}
+						if errs > 0 || len(ans) != len(sh) {
+							msg := firstError(out)
+							for _, ob := range sh {
+								ob.Status = "undecided"
+								ob.Output = "incremental script failed: " + msg
+							}
+							local = append(local, sh...)
+							if errs > 0 {
+								mu.Lock()
+								vc.unsupportedf("SMT script error: %s", msg)
+								mu.Unlock()
+								return false
+							}
+							return true
+						}
+						per := el / float64(len(sh))
+						for i, ob := range sh {
+							ob.Solver = "z3-new(incremental)"
+							ob.Seconds = per
+							if ans[i] == "unsat" {
+								ob.Status = "proved"
+							} else {
+								ob.Status = "undecided"
+								ob.Output = ans[i]
+								local = append(local, ob)
+							}
+						}
+						return true
+					}()
+					mu.Lock()
+					pending = append(pending, local...)
+					if !ok {
+						okAll = false
+					}
+					mu.Unlock()
+				}(k, sh)
+			}
+			wg.Wait()
+			if !okAll {
+				return
+			}
 		}
-		if !runInc(base+".cov.smt2", vc.coverScript(cfg.incTimeoutMs), covers, "z3-new(incremental, ground facts)") {
-			return
-		}
+		<-covDone
+		pending = append(pending, covPending...)
 	}
 	// race the rest
 	var wg sync.WaitGroup
